@@ -217,3 +217,52 @@ Proof.
   subst s. cbn [expand msites app]. rewrite msites_cat. unfold msites_list.
   rewrite flat_map_concat_map, map_map, <- flat_map_concat_map. reflexivity.
 Qed.
+
+(* ---- a composite whose OWN shape fails evaluates none of its children's chains: the only method calls are those of the composite's
+   value expression - once for the test and (the recorded finding C08-fail-path-double-eval) once more for the message ---- *)
+
+Lemma mlist_debug t n : mlist (t ++ [EvDebug n]) = mlist t.
+Proof. rewrite mlist_app. cbn. apply app_nil_r. Qed.
+
+Lemma shape_failure_trace en e v t sp id rep tr :
+  eval en e = Some (v, t) ->
+  test en (Some false) t (mk_push sp id (ADebug e) ENone) None = Some (rep, tr) ->
+  mlist tr = vmeths e ++ vmeths e /\ List.length rep = 1%nat.
+Proof.
+  intros He H. unfold test, do_push in H. cbn [ps_actual mk_push] in H. rewrite He in H. cbn in H.
+  inversion H; subst. split; [|reflexivity].
+  rewrite mlist_app, mlist_debug. rewrite (eval_mlist _ _ _ _ He). reflexivity.
+Qed.
+
+Lemma shape_failure_trace_ref en e v t sp id rep tr :
+  eval en e = Some (v, t) ->
+  test en (Some false) t (mk_push sp id (ADebugRef e) ENone) None = Some (rep, tr) ->
+  mlist tr = vmeths e ++ vmeths e /\ List.length rep = 1%nat.
+Proof.
+  intros He H. unfold test, do_push in H. cbn [ps_actual mk_push] in H. rewrite He in H. cbn in H.
+  inversion H; subst. split; [|reflexivity].
+  rewrite mlist_app, mlist_debug. rewrite (eval_mlist _ _ _ _ He). reflexivity.
+Qed.
+
+(* a tuple-variant pattern on a value of ANOTHER variant: one entry, and no chain or operand of its elements is evaluated *)
+Theorem wrong_variant_evaluates_no_child : forall j id path el elems e en rep tr v t n args nm,
+  eval en e = Some (v, t) -> path_last path = Some nm -> peel v = VVariantV n args -> String.eqb n nm = false ->
+  exec (expand j (PEnum id path (el :: elems)) e) en = Some (rep, tr) ->
+  mlist tr = vmeths e ++ vmeths e /\ List.length rep = 1%nat.
+Proof.
+  intros j id path el elems e en rep tr v t n args nm He Hp Hv Hn H.
+  cbn [expand exec] in H. rewrite He, Hp, Hv, Hn in H.
+  eapply shape_failure_trace; [exact He|exact H].
+Qed.
+
+(* a slice pattern on a collection whose length it does not fit: one entry, no element pattern is evaluated *)
+Theorem wrong_length_slice_evaluates_no_child : forall j id sp elems e en rep tr v t vs,
+  eval en e = Some (v, t) -> elements_of v = Some vs ->
+  slice_match (mapi (fun i el => if is_rest_range el then SPRest else if is_wild el then SPWild else SPBind i) elems) vs = Some None ->
+  exec (expand j (PSlice id sp elems) e) en = Some (rep, tr) ->
+  mlist tr = vmeths e ++ vmeths e /\ List.length rep = 1%nat.
+Proof.
+  intros j id sp elems e en rep tr v t vs He Hv Hs H.
+  cbn [expand exec] in H. rewrite He, Hv, Hs in H.
+  eapply shape_failure_trace_ref; [exact He|exact H].
+Qed.
